@@ -41,7 +41,7 @@ func init() {
 		Level:     "other",
 		Technique: "divisor-non-zero rule over storage writers (must-facts at every writer of the count key), sibling agreement of the retention bounds read off the loop header as canonical linear terms, must-facts at the ring index computation",
 		Explanation: "D1 NewEpoch and Snapshot compute '% stored snapshotCount'; every writer of that key stores a value established > 0 (so any accepted count leaves the contract able to tick). D2 NewEpoch keeps the per-epoch lists of epochs (e−N, e] (drops e−N under e > N); the drop loop of UpdateSnapshotCount covers exactly [cur−old+1, cur−new] (bounds read off the loop as linear terms over the stored epoch, the stored old count and the parameter). " +
-			"D3 Snapshot establishes 0 ≤ diff < count before indexing the ring; ListNodesEpoch scans 'p'‖BE4(epoch) with the same fixed-width encoder that NewEpoch and dropNetmap use. D4 every normal path of UpdateSnapshotCount on which the window shrinks runs the drop loop (skip-edge rule); writer, reader and dropper of the per-epoch lists use one structurally identified fixed-width encoder. M: Snapshot reads slot (current − diff + count) % count and faults only for diff outside 0 … count−1; NewEpoch advances the ring index by one modulo count. R6 ring-move: a single resize moves and frees exactly the slots of the in-place algorithm — grow: slot t := slot t−(new−old) for t = new−1 … current+1+(new−old) downwards, slots current+1 … min(current+1+(new−old), old)−1 freed; shrink: slot t := slot t+(old−new) for t = current+1 … new−1 (current < new) or slot t := slot t+(current−new+1) for t = 0 … new−1 with current := new−1 (current ≥ new), slots new … old−1 freed — compared as canonical linear terms under the branch facts and the order axioms of the integers.",
+			"D3 Snapshot establishes 0 ≤ diff < count before indexing the ring; ListNodesEpoch scans 'p'‖BE4(epoch) with the same fixed-width encoder that NewEpoch and dropNetmap use. D4 every normal path of UpdateSnapshotCount on which the window shrinks runs the drop loop (skip-edge rule); writer, reader and dropper of the per-epoch lists use one structurally identified fixed-width encoder. M: Snapshot reads slot (current − diff + count) % count and faults only for diff outside 0 … count−1; NewEpoch advances the ring index by one modulo count. R6 ring-move: a single resize moves and frees exactly the slots of the in-place algorithm — grow: slot t := slot t−(new−old) for t = new−1 … current+1+(new−old) downwards, slots current+1 … min(current+1+(new−old), old)−1 freed; shrink: slot t := slot t+(old−new) for t = current+1 … new−1 (current < new) or slot t := slot t+(current−new+1) for t = 0 … new−1 with current := new−1 (current ≥ new), slots new … old−1 freed — compared as canonical linear terms under the branch facts and the order axioms of the integers. R7: no iteration of a move loop goes round its Put (every target slot is written).",
 		NotCovered: "what the ring holds after sequences of resizes and ticks (modular positions over histories): a relation between run-time integers over time, not decidable by this family; the per-call slot sets of a single resize are decided (ring-move).",
 		Run:        runC08,
 	})
